@@ -124,7 +124,7 @@ class HistAdapter(Adapter):
     engine = "hist"
     level = "exploration"
     components = HIST_COMPONENTS
-    RUNS = {"quick": 100000, "thorough": 2000000}
+    RUNS = {"quick": 55000, "thorough": 1500000}
     assumptions = [
         "NumPy's concatenate/column_stack/take/boolean selection are the reference semantics",
         "arguments are kept inside each operation's documented domain by the generator's guards",
@@ -332,7 +332,7 @@ class InterruptAdapter(PooledAdapter):
 class PurityAdapter(PooledAdapter):
     prop = "C17"
     level = "exploration"
-    RUNS = {"quick": 20000, "thorough": 500000}
+    RUNS = {"quick": 30000, "thorough": 600000}
     SELFTEST = {"quick": 6, "thorough": 16}
     required_probes = ("op_calculate", "op_shortcut", "op_newcube", "op_index", "probe_correct_call_after_interrupt",
                        "probe_several_aggregates_in_one_pass", "fault_interrupt_during_session",
@@ -393,10 +393,10 @@ REGISTRY = {
     "C06": HistAdapter("C06", HIST_PROBES),
     "C07": HistAdapter("C07", HIST_PROBES),
     "C15": HistAdapter("C15", HIST_PROBES + ("c15_library_chosen_common_checked", "c15_equality_pairs")),
-    "C10": StorageAdapter("C10", "exploration", {"quick": 500000, "thorough": 10000000},
+    "C10": StorageAdapter("C10", "exploration", {"quick": 220000, "thorough": 6000000},
                           probes=("index_derived_cases", "empty_entry_sets", "cases_with_empty_rowid_array",
                                   "wmode_raw", "wmode_bufw", "wmode_bufrw", "c_level_blocks")),
-    "C11": StorageAdapter("C11", "exploration", {"quick": 200000, "thorough": 4000000},
+    "C11": StorageAdapter("C11", "exploration", {"quick": 90000, "thorough": 2500000},
                           probes=("scale_total_ge_2^30", "scale_total_ge_2^32", "ref_to_lib_iw8_rw8",
                                   "ref_to_lib_iw1_rw1", "lib_to_ref_files")),
     "C12": StorageAdapter("C12", "fault_enumeration", {"quick": 20000, "thorough": 400000},
